@@ -279,3 +279,12 @@ Proof. exact kc_stream_pow2. Qed.
 Theorem C14_kc_pow2_binary64 : forall k p mu s xs xs', kc_new FOps p mu = Ok s -> Forall2 (scaled k) xs xs' -> kc_run_ok k s xs ->
   Forall2 (Forall2 (scaled k)) (kc_outs FOps s xs) (kc_outs FOps s xs').
 Proof. exact kc_pow2_covariant. Qed.
+
+(* ... and a dimensionless one over whole streams: PercentagePriceOscillator is UNCHANGED (scaled 0: FR o' = FR o) by 2^k *)
+From TA Require Import Proofs.FloatScalePpo.
+Theorem C14_ppo_stream_pow2_binary64 : forall k xs xs' s s', rel_ppo k s s' -> Forall2 (scaled k) xs xs' -> ppo_run_ok k s xs ->
+  Forall2 (Forall2 (scaled 0)) (ppo_outs FOps s xs) (ppo_outs FOps s' xs').
+Proof. exact ppo_stream_pow2. Qed.
+Theorem C14_ppo_pow2_binary64 : forall k pf ps pg s xs xs', ppo_new FOps pf ps pg = Ok s -> Forall2 (scaled k) xs xs' -> ppo_run_ok k s xs ->
+  Forall2 (Forall2 (scaled 0)) (ppo_outs FOps s xs) (ppo_outs FOps s xs').
+Proof. exact ppo_pow2_invariant. Qed.
